@@ -200,8 +200,18 @@ fn esc(s: &str) -> String {
     s.replace('&', "&amp;").replace('<', "&lt;").replace('"', "&quot;")
 }
 
+/// Name of the node with id 7: every character XML needs escaped, so that the document has to
+/// carry it as entities / character references and the reader has to decode them.
+pub const SPECIAL_NAME: &str = "a&b<c>\"d'";
+
 fn nm(id: i64) -> String {
-    format!("n{}", id)
+    if id == 7 { SPECIAL_NAME.to_string() } else { format!("n{}", id) }
+}
+
+/// The attribute text for a node id: name 7 is written with a mixture of predefined entities and
+/// character references, the others through `esc`.
+fn id_text(id: i64) -> String {
+    if id == 7 { "a&amp;b&#60;c&gt;&quot;d&#x27;".to_string() } else { esc(&nm(id)) }
 }
 
 /// Renders one abstract token (spec/GraphML.tla) to XML text.
@@ -224,14 +234,14 @@ pub fn render_token(tk: &Value) -> String {
         "/G" => "</graph>".to_string(),
         "N" => {
             let id = tk["id"].as_i64().unwrap();
-            let attrs = if id == 0 { String::new() } else { format!(" id=\"{}\"", esc(&nm(id))) };
+            let attrs = if id == 0 { String::new() } else { format!(" id=\"{}\"", id_text(id)) };
             if tk["open"].as_bool().unwrap() { format!("<node{}></node>", attrs) } else { format!("<node{}/>", attrs) }
         }
         "E" => {
             let (s, d) = (tk["s"].as_i64().unwrap(), tk["d"].as_i64().unwrap());
             let mut attrs = String::new();
-            if s != 0 { attrs += &format!(" source=\"{}\"", nm(s)); }
-            if d != 0 { attrs += &format!(" target=\"{}\"", nm(d)); }
+            if s != 0 { attrs += &format!(" source=\"{}\"", id_text(s)); }
+            if d != 0 { attrs += &format!(" target=\"{}\"", id_text(d)); }
             if tk["open"].as_bool().unwrap() { format!("<edge{}>", attrs) } else { format!("<edge{}/>", attrs) }
         }
         "/E" => "</edge>".to_string(),
@@ -306,6 +316,9 @@ pub fn read_call(doc: &str, specs: SpecsJ) -> Value {
             // names n<i> are mapped back to i; anything else gets a fresh id from 900
             let mut extra: Vec<String> = vec![];
             let mut id = |s: &str| -> i64 {
+                if s == SPECIAL_NAME {
+                    return 7;
+                }
                 if let Some(r) = s.strip_prefix('n') {
                     if let Ok(i) = r.parse::<i64>() {
                         if i > 0 && i < 900 {
